@@ -106,7 +106,7 @@ class Worker(metaclass=SupportClassPropertiesMeta):
     @staticmethod
     def active_children():
         with Worker._children_lock:
-            Worker._children = [child for child in Worker._active_children if child.is_alive()]
+            Worker._active_children = [child for child in Worker._active_children if child.is_alive()]
             cpy = copy.copy(Worker._active_children)
         for child in cpy:
             yield child
